@@ -125,10 +125,17 @@ def _observe(conn, sql: str) -> dict:
     except Exception as e:
         desc = "raises:" + type(e).__name__
     try:
-        rows = [[_canon(v) for v in r] for r in cur.fetchall()]
+        raw = cur.fetchall()
     except Exception as e:
         return {"k": "X", "cls": "fetch:" + type(e).__name__}
-    return {"k": "K", "rows": rows, "desc": desc, "rowcount": cur.rowcount, "sqlstate": cur.sqlstate}
+    n, digest = len(raw), None
+    if n > 3000:
+        # large result: all rows enter a digest (floats by repr, fine for the generated integer/text/decimal columns); a sample is kept for the detailed comparison
+        import hashlib
+        digest = hashlib.md5(repr([tuple((type(v).__name__, str(v)) for v in r) for r in raw]).encode()).hexdigest()
+        raw = raw[:25] + raw[n // 2: n // 2 + 25] + raw[-25:]
+    rows = [[_canon(v) for v in r] for r in raw]
+    return {"k": "K", "rows": rows, "nrows": n, "digest": digest, "desc": desc, "rowcount": cur.rowcount, "sqlstate": cur.sqlstate}
 
 
 # ------------------------------------------------------------------------------------------------
@@ -364,7 +371,7 @@ def _obs_exec(b: dict) -> str:
     if b["k"] == "X":
         return "X"
     describable = isinstance(b["desc"], list)
-    return f"K:{1 if describable else 0}:{len(b['rows'])}:{b['rowcount']}"
+    return f"K:{1 if describable else 0}:{b['nrows']}:{b['rowcount']}"
 
 
 def _obs_http(a: dict) -> str:
@@ -374,7 +381,7 @@ def _obs_http(a: dict) -> str:
         return "H500" if a["cls"] == "InternalServerError" else "X:" + a["cls"]
     d = a["desc"]
     dk = "raises" if isinstance(d, str) else ("empty" if not d else "cols")
-    return f"K:{len(a['rows'])}:{a['rowcount']}:{dk}"
+    return f"K:{a['nrows']}:{a['rowcount']}:{dk}"
 
 
 def _val_eq(x, y) -> bool:
@@ -419,6 +426,10 @@ def _check_stmt(chk, case, kind, sql, a, b, reply, ty_replies):
         return True
     if a["desc"] != b["desc"]:
         chk.violation(f"`{sql}`: description over HTTP {a['desc']} ≠ in-process {b['desc']}", case, broken="C17_response_partial (description)")
+        return False
+    if a["digest"] != b["digest"]:
+        chk.violation(f"`{sql}`: the {b['nrows']} rows over HTTP differ from the in-process rows (digest over all rows; first rows HTTP {a['rows'][:2]} / in-process {b['rows'][:2]})", case,
+                      broken="C17_response_partial (rows of a large result)")
         return False
     if a["sqlstate"] != b["sqlstate"]:
         chk.violation(f"`{sql}`: cursor.sqlstate over HTTP {a['sqlstate']!r} ≠ in-process {b['sqlstate']!r}", case, broken="C17_response_partial (sqlstate)")
@@ -466,6 +477,18 @@ def _run_b(chk, rnd, nhist: int):
         hists.append((i, _gen_history(rnd, i, force_types=[ty, ty])))
     for i in range(len(COLTYPES), nhist):
         hists.append((i, _gen_history(rnd, i)))
+    # large results (more than one DuckDB vector / more than 1000 rows — still ONE arrow record batch up to 1 000 000 rows)
+    big = [("create", "create table BIG as select i as id, i * 1.5 as f, 'r' || i as s, case when i % 3 = 0 then null else i end as n, "
+                      "(i % 1000)::number(10,2) / 8 as d from range(10000) t(i)")]
+    for nrows in (1001, 2500, 10000, rnd.choice([1000, 2048, 2049, 4097, 7777])):
+        big.append(("select-big", f"select id, f, s, n, d from BIG where id < {nrows} order by id"))
+    big.append(("select-big", "select i, i % 7 as m, '1969-12-31 23:59:59.000065'::timestamp_ntz as ts from range(2500) t(i) order by i"))
+    big.append(("update", "update BIG set n = 0 where id >= 5000"))
+    big.append(("delete", "delete from BIG where id < 1200"))
+    big.append(("select-big", "select count(*), sum(n), min(id) from BIG"))
+    if chk.tier != "quick":
+        big.append(("select-big", "select i from range(1000000) t(i)"))      # the largest single-batch result (C17_single_batch)
+    hists.append((nhist + 1, big))
     # the type table sweep: one statement per type expression
     type_hist = [("type:" + tok, f"select {expr} as c from (select 1) t") for tok, expr in TYPE_EXPRS]
     hists.append((nhist, type_hist))
@@ -1067,9 +1090,9 @@ def run(chk) -> None:
     t0 = time.time()
     _run_a(chk, rnd, thorough)
     t1 = time.time()
-    _run_b(chk, rnd, 1000 if thorough else 110)
+    _run_b(chk, rnd, 1000 if thorough else 100)
     t2 = time.time()
-    _run_c(chk, rnd, 700 if thorough else 75)
+    _run_c(chk, rnd, 700 if thorough else 65)
     chk.extra["wall_parts_s"] = {"A": round(t1 - t0, 1), "B": round(t2 - t1, 1), "C": round(time.time() - t2, 1)}
     chk.exhaustive = True
     chk.extra["exhaustive_part"] = "all 10^6 microsecond fractions per (epoch, tz) combination; all NULL placements of columns of length ≤ 4; the whole types.py table"
